@@ -73,8 +73,52 @@ func obliviousCheck(f func(b []byte) ([]byte, error)) string {
 			}
 		}
 	}
+	// prefix CONTENT must not matter either: the destination may end in anything, in particular in bytes that look like the
+	// tail of a JSON token (an exponent, a sign, a backslash, half a \u escape, a UTF-8 lead byte, a structural byte)
+	for _, tail := range adversarialTails {
+		for _, extra := range []int{0, 5} {
+			for _, sp := range []int{0, n - 1, n, n + 9} {
+				if sp < 0 {
+					continue
+				}
+				pl := len(tail) + extra
+				arr := make([]byte, pl+sp+guardLen)
+				for i := range arr {
+					if i < pl {
+						arr[i] = patternByte(i)
+					} else {
+						arr[i] = 0xEE
+					}
+				}
+				copy(arr[extra:pl], tail)
+				want := append([]byte(nil), arr[:pl]...)
+				res, e := f(arr[: pl : pl+sp])
+				tag := fmt.Sprintf("prefixtail=%q prefix=%d spare=%d n=%d", tail, pl, sp, n)
+				if (e == nil) != (err == nil) {
+					return "error-depends-on-destination " + tag
+				}
+				if len(res) < pl || !bytes.Equal(res[:pl], want) {
+					return "prefix-not-preserved-in-result " + tag
+				}
+				if !bytes.Equal(arr[:pl], want) {
+					return "wrote-below-len " + tag
+				}
+				for i := pl + sp; i < len(arr); i++ {
+					if arr[i] != 0xEE {
+						return "wrote-beyond-cap " + tag
+					}
+				}
+				if e == nil && !bytes.Equal(res[pl:], out) {
+					return "remainder-differs-from-append-nil " + tag
+				}
+			}
+		}
+	}
 	return "ok"
 }
+
+var adversarialTails = []string{"e-0", "e+0", "E-0", "1e-0", "e-", "e", "-", "0", "0.", ".", "1", "\\", "\\\\", "\"", "\\\"", "\\u00", "\\ud83d",
+	",", ":", "[", "{", "}", "]", "tru", "fals", "nul", "null", "<", ">", "&", "\xe2\x80", "\xf0\x9f", "\xff", " ", "\n", "\x00", "=="}
 
 var appendFlagSets = []json.AppendFlags{0, json.EscapeHTML, json.SortMapKeys, json.EscapeHTML | json.SortMapKeys, json.TrustRawMessage,
 	json.EscapeHTML | json.TrustRawMessage, json.SortMapKeys | json.TrustRawMessage, json.EscapeHTML | json.SortMapKeys | json.TrustRawMessage}
